@@ -102,49 +102,54 @@ theorem err_ne2 : (Go.Error.nil != Go.Error.nil) = false := by decide
 theorem err_eq1 : (Go.Error.eof == Go.Error.eof) = true := by decide
 theorem err_ne3 : (Go.Error.eof != Go.Error.eof) = false := by decide
 
-set_option hygiene false in
-/-- the common end of both cases of `iter_eq`: all facts first, then the case split, then ONE simplification in which every
-    `if` of the translated body is decided as it is met (so that no branch is expanded in vain) -/
-macro "iter_finish" : tactic => `(tactic| (
-  generalize htr : toRead (total pre) seg _ off remaining = tr at *
-  have htrle : tr ≤ remaining := by
-    rw [← htr]; unfold toRead; split <;> omega
-  have hsl : Go.slice p (bo : Int) (Go.wrap64 ((bo : Int) + (tr : Int))) = .ok ((p.drop bo).take tr) := by
-    rw [w _ (by omega) (by omega)]
-    unfold Go.slice
-    have : (0:Int) ≤ (bo : Int) ∧ (bo : Int) ≤ (bo : Int) + (tr : Int) ∧ (bo : Int) + (tr : Int) ≤ p.length := by omega
-    simp only [this, and_self, if_true, pure_eq_ok, Int.toNat_natCast]
-    congr 2; omega
-  have hlen8 : Go.len ((p.drop bo).take tr) = (tr : Int) := by
-    unfold Go.len; simp; omega
-  have hoffI : Go.wrap64 ((off : Int) - (total pre : Int)) = ((off - total pre : Nat) : Int) := by
-    rw [w _ (by omega) (by omega)]; omega
-  obtain ⟨rb, reof, hr⟩ : ∃ rb reof, Multi.readSeg seg (off - total pre) tr = (rb, reof) := ⟨_, _, rfl⟩
-  have hrl : rb.length ≤ tr := by have := readSeg_length_le seg (off - total pre) tr; rw [hr] at this; exact this
-  have hmr : memReader seg (tr : Int) ((off - total pre : Nat) : Int) = (rb, if reof then Go.Error.eof else Go.Error.nil) := by
-    unfold memReader
-    have : ¬ (((off - total pre : Nat) : Int) < 0) := by omega
-    simp [this, hr]
-  have hn : Go.len rb = (rb.length : Int) := id rfl
-  have hw1 : Go.wrap64 ((bo : Int) + (rb.length : Int)) = ((bo + rb.length : Nat) : Int) := by rw [w _ (by omega) (by omega)]; simp
-  have hw2 : Go.wrap64 ((remaining : Int) - (rb.length : Int)) = ((remaining - rb.length : Nat) : Int) := by
-    rw [w _ (by omega) (by omega)]; omega
-  have hw3 : Go.wrap64 ((off : Int) + (rb.length : Int)) = ((off + rb.length : Nat) : Int) := by rw [w _ (by omega) (by omega)]; simp
-  have hw4 : Go.wrap64 ((pre.length : Int) + 1) = ((pre.length + 1 : Nat) : Int) := by rw [w _ (by omega) (by omega)]; simp
-  have hz : (((remaining - rb.length : Nat) : Int) == 0) = decide (remaining - rb.length = 0) := by
-    by_cases h : remaining - rb.length = 0
-    · simp [h]
-    · have : ¬ (((remaining - rb.length : Nat) : Int) = 0) := by omega
-      simp [h, this]
-  have hnt : (((rb.length : Nat) : Int) == (tr : Int)) = decide (rb.length = tr) := by
-    by_cases h : rb.length = tr
-    · simp [h]
-    · have : ¬ (((rb.length : Nat) : Int) = (tr : Int)) := by omega
-      simp [h, this]
-  cases reof <;> by_cases h1 : rb.length = tr <;> by_cases h2 : remaining - rb.length = 0 <;>
-    simp only [hsl, bind_ok, hlen8, hoffI, hmr, hr, hn, hw1, hw2, hw3, hw4, hz, hnt, hlast, h1, h2, decide_true, decide_false, if_true,
-      if_false, Bool.false_eq_true, err_ne1, err_ne2, err_eq1, err_ne3, Bool.and_true, Bool.and_false, Bool.true_and, Bool.false_and,
-      Bool.or_false, Bool.or_true, pure_eq_ok, List.isEmpty_nil, List.isEmpty_cons, Bool.and_self]))
+/-! ### the loop body, restated in named pieces and tied to the translated code by `rfl`
+
+The translated loop body is one do-block whose `if`s share their continuation through join points; unfolding it
+naively copies the continuation twelve times.  `tail`, `afterErr`, `afterRead`, `read` name the pieces; `loop1_unfold`
+(proved by `rfl`: the kernel checks that the pieces ARE the translated body) is what the proofs below rewrite with. -/
+
+def tail (fuel0 : Nat) (m : Splitcarfetcher_MultiReaderAt) (rng1 : List Int) (f : Nat) (e : Int)
+    (bufOffset : Int) (p : List UInt8) (remaining totalN : Int) (reachedEnd : Bool) (off : Int) : LoopOut :=
+  if (remaining == 0) = true then pure (LoopRes.done (bufOffset, off, p, reachedEnd, remaining, totalN, e))
+  else scfMultiReadAt.loop1 fuel0 m rng1 f bufOffset off p reachedEnd remaining totalN (wrap64 (e + 1))
+
+def afterErr (fuel0 : Nat) (m : Splitcarfetcher_MultiReaderAt) (rng1 : List Int) (f : Nat) (e b : Int)
+    (bufOffset : Int) (p : List UInt8) (remaining totalN n toRead : Int) (reachedEnd : Bool) : LoopOut :=
+  if (n == toRead) = true then tail fuel0 m rng1 f e bufOffset p remaining totalN reachedEnd (wrap64 (b + n))
+  else tail fuel0 m rng1 f e bufOffset p remaining totalN reachedEnd b
+
+def afterRead (fuel0 : Nat) (m : Splitcarfetcher_MultiReaderAt) (rng1 : List Int) (f : Nat) (e b : Int) (re : Bool)
+    (bufOffset : Int) (p : List UInt8) (remaining totalN n toRead : Int) (err_1 : Go.Error) : LoopOut :=
+  if (err_1 != Error.nil) = true then
+    if (err_1 == Error.eof && e == wrap64 (len m.readers - 1)) = true then
+      afterErr fuel0 m rng1 f e b bufOffset p remaining totalN n toRead true
+    else if (err_1 != Error.eof) = true then pure (LoopRes.ret (totalN, err_1, p))
+    else afterErr fuel0 m rng1 f e b bufOffset p remaining totalN n toRead re
+  else afterErr fuel0 m rng1 f e b bufOffset p remaining totalN n toRead re
+
+def read (fuel0 : Nat) (m : Splitcarfetcher_MultiReaderAt) (rng1 : List Int) (f : Nat) (a b : Int) (p : List UInt8) (re : Bool)
+    (c d e offset nextOffset : Int) : LoopOut := do
+  let t5 ← scfMax 0 (wrap64 (nextOffset - b))
+  let t6 ← scfMin t5 c
+  let t7 ← idx m.readers e
+  let t8 ← slice p a (wrap64 (a + t6))
+  afterRead fuel0 m rng1 f e b re (wrap64 (a + len (t7 (len t8) (wrap64 (b - offset))).fst))
+    (setSlice p a ((t7 (len t8) (wrap64 (b - offset))).fst ++ List.drop (t7 (len t8) (wrap64 (b - offset))).fst.length t8))
+    (wrap64 (c - len (t7 (len t8) (wrap64 (b - offset))).fst)) (wrap64 (d + len (t7 (len t8) (wrap64 (b - offset))).fst))
+    (len (t7 (len t8) (wrap64 (b - offset))).fst) t6 (t7 (len t8) (wrap64 (b - offset))).snd
+
+theorem loop1_unfold (fuel0 : Nat) (m : Splitcarfetcher_MultiReaderAt) (rng1 : List Int) (f : Nat) (a b : Int) (p : List UInt8) (re : Bool) (c d e : Int) :
+    scfMultiReadAt.loop1 fuel0 m rng1 (f+1) a b p re c d e =
+      (if (!decide (e < len rng1)) = true then pure (LoopRes.done (a, b, p, re, c, d, e))
+       else do
+        let t3 ← idx rng1 e
+        if decide (b < t3) = true then scfMultiReadAt.loop1 fuel0 m rng1 f a b p re c d (wrap64 (e + 1))
+        else if decide (e < wrap64 (len m.offsets - 1)) = true then do
+            let t4 ← idx m.offsets (wrap64 (e + 1))
+            read fuel0 m rng1 f a b p re c d e t3 t4
+          else read fuel0 m rng1 f a b p re c d e t3 9223372036854775807) := by
+  rw [scfMultiReadAt.loop1]
+  rfl
 
 /-- ONE iteration of the translated loop at a segment that `off` has reached, in closed form -/
 theorem iter_eq (all : List (List UInt8)) (htot : total all < 2 ^ 61) (hcnt : all.length < 2 ^ 61) (len : Nat) (hlen : len < 2 ^ 61)
@@ -189,27 +194,97 @@ theorem iter_eq (all : List (List UInt8)) (htot : total all < 2 ^ 61) (hcnt : al
     simp only [this, and_self, if_true, pure_eq_ok, Int.toNat_natCast]
     unfold mk; simp only; rw [← hall, readers_getD]
   have hns' : ¬ ((off : Int) < (total pre : Int)) := by omega
-  rw [scfMultiReadAt.loop1]
+  -- the value of toRead and the read
+  obtain ⟨tr, htr⟩ : ∃ tr, toRead (total pre) seg rest off remaining = tr := ⟨_, rfl⟩
+  have htrle : tr ≤ remaining := by rw [← htr]; unfold toRead; split <;> omega
+  have hread : ∀ (next : Int), (scfMax 0 (Go.wrap64 (next - (off : Int))) >>= fun t5 => scfMin t5 (remaining : Int)) = .ok (tr : Int) →
+      read fuel0 (mk all) (offsOf 0 all) f (bo : Int) (off : Int) p re (remaining : Int) (bo : Int) (pre.length : Int) (total pre : Int) next =
+      afterRead fuel0 (mk all) (offsOf 0 all) f (pre.length : Int) (off : Int) re
+        ((bo + (Multi.readSeg seg (off - total pre) tr).1.length : Nat) : Int)
+        (Go.setSlice p (bo : Int) ((Multi.readSeg seg (off - total pre) tr).1 ++ ((p.drop bo).take tr).drop (Multi.readSeg seg (off - total pre) tr).1.length))
+        ((remaining - (Multi.readSeg seg (off - total pre) tr).1.length : Nat) : Int)
+        ((bo + (Multi.readSeg seg (off - total pre) tr).1.length : Nat) : Int)
+        ((Multi.readSeg seg (off - total pre) tr).1.length : Int) (tr : Int)
+        (if (Multi.readSeg seg (off - total pre) tr).2 then Go.Error.eof else Go.Error.nil) := by
+    intro next hnext
+    have hrl := readSeg_length_le seg (off - total pre) tr
+    unfold read
+    cases hmx : scfMax 0 (Go.wrap64 (next - (off : Int))) with
+    | error e => rw [hmx] at hnext; cases hnext
+    | ok t5 =>
+      rw [hmx] at hnext; simp only [bind_ok] at hnext
+      simp only [bind_ok, hnext, hrd]
+      have hsl : Go.slice p (bo : Int) (Go.wrap64 ((bo : Int) + (tr : Int))) = .ok ((p.drop bo).take tr) := by
+        rw [w _ (by omega) (by omega)]
+        unfold Go.slice
+        have : (0:Int) ≤ (bo : Int) ∧ (bo : Int) ≤ (bo : Int) + (tr : Int) ∧ (bo : Int) + (tr : Int) ≤ p.length := by omega
+        simp only [this, and_self, if_true, pure_eq_ok, Int.toNat_natCast]
+        congr 2; omega
+      have hlen8 : Go.len ((p.drop bo).take tr) = (tr : Int) := by
+        unfold Go.len; simp; omega
+      have hoffI : Go.wrap64 ((off : Int) - (total pre : Int)) = ((off - total pre : Nat) : Int) := by
+        rw [w _ (by omega) (by omega)]; omega
+      have hmr : memReader seg (tr : Int) ((off - total pre : Nat) : Int)
+          = ((Multi.readSeg seg (off - total pre) tr).1, if (Multi.readSeg seg (off - total pre) tr).2 then Go.Error.eof else Go.Error.nil) := by
+        unfold memReader
+        have : ¬ (((off - total pre : Nat) : Int) < 0) := by omega
+        simp [this]
+      simp only [hsl, bind_ok, hlen8, hoffI, hmr]
+      have hn : Go.len (Multi.readSeg seg (off - total pre) tr).1 = ((Multi.readSeg seg (off - total pre) tr).1.length : Int) := id rfl
+      rw [hn, w _ (by omega) (by omega), w _ (by omega) (by omega)]
+      have e1 : (bo : Int) + ((Multi.readSeg seg (off - total pre) tr).1.length : Int)
+          = ((bo + (Multi.readSeg seg (off - total pre) tr).1.length : Nat) : Int) := by simp
+      have e2 : (remaining : Int) - ((Multi.readSeg seg (off - total pre) tr).1.length : Int)
+          = ((remaining - (Multi.readSeg seg (off - total pre) tr).1.length : Nat) : Int) := by omega
+      rw [e1, e2]
+  -- the control flow after the read
+  have hafter : ∀ (rb : List UInt8) (reof : Bool) (p' : List UInt8), rb.length ≤ tr →
+      afterRead fuel0 (mk all) (offsOf 0 all) f (pre.length : Int) (off : Int) re ((bo + rb.length : Nat) : Int) p'
+        ((remaining - rb.length : Nat) : Int) ((bo + rb.length : Nat) : Int) (rb.length : Int) (tr : Int) (if reof then Go.Error.eof else Go.Error.nil) =
+      (if remaining - rb.length = 0 then
+         (.ok (.done (((bo + rb.length : Nat) : Int), ((if rb.length = tr then off + rb.length else off : Nat) : Int), p', re || (reof && rest.isEmpty),
+           ((remaining - rb.length : Nat) : Int), ((bo + rb.length : Nat) : Int), (pre.length : Int))) : LoopOut)
+       else
+         scfMultiReadAt.loop1 fuel0 (mk all) (offsOf 0 all) f ((bo + rb.length : Nat) : Int)
+           ((if rb.length = tr then off + rb.length else off : Nat) : Int) p' (re || (reof && rest.isEmpty))
+           ((remaining - rb.length : Nat) : Int) ((bo + rb.length : Nat) : Int) ((pre.length + 1 : Nat) : Int)) := by
+    intro rb reof p' hrl
+    have hlast : ((pre.length : Int) == Go.wrap64 (Go.len (mk all).readers - 1)) = rest.isEmpty := by
+      rw [hlr, w _ (by omega) (by omega)]
+      cases rest with
+      | nil => simp
+      | cons s2 r2 => simp; omega
+    have hz : (((remaining - rb.length : Nat) : Int) == 0) = decide (remaining - rb.length = 0) := by
+      by_cases h : remaining - rb.length = 0
+      · simp [h]
+      · have : ¬ (((remaining - rb.length : Nat) : Int) = 0) := by omega
+        simp [h, this]
+    have hnt : (((rb.length : Nat) : Int) == (tr : Int)) = decide (rb.length = tr) := by
+      by_cases h : rb.length = tr
+      · simp [h]
+      · have : ¬ (((rb.length : Nat) : Int) = (tr : Int)) := by omega
+        simp [h, this]
+    have hw3 : Go.wrap64 ((off : Int) + (rb.length : Int)) = ((off + rb.length : Nat) : Int) := by rw [w _ (by omega) (by omega)]; simp
+    have hw4 : Go.wrap64 ((pre.length : Int) + 1) = ((pre.length + 1 : Nat) : Int) := by rw [w _ (by omega) (by omega)]; simp
+    unfold afterRead afterErr tail
+    simp only [hlast, hz, hnt, hw3, hw4]
+    cases reof <;> cases hre : rest.isEmpty <;> by_cases h1 : rb.length = tr <;> by_cases h2 : remaining - rb.length = 0 <;>
+      simp [h1, h2, err_ne1, err_ne2, err_eq1, err_ne3]
+  rw [loop1_unfold]
   simp only [hlt, decide_true, Bool.not_true, Bool.false_eq_true, if_false, hidx, bind_ok, hns', decide_false]
-  -- the value of toRead, as an Int
-  have htrI : ∃ trI : Int, trI = ((toRead (total pre) seg rest off remaining : Nat) : Int) := ⟨_, rfl⟩
+  simp only [← htr] at hread hafter ⊢
   cases rest with
   | nil =>
     have c1 : ¬ ((pre.length : Int) < Go.wrap64 (Go.len (mk all).offsets - 1)) := by
       rw [hlo, w _ (by omega) (by omega)]; simp
     simp only [c1, decide_false, Bool.false_eq_true, if_false]
-    have hmax : scfMax 0 (Go.wrap64 (9223372036854775807 - (off : Int))) = .ok (9223372036854775807 - (off : Int)) := by
+    rw [hread 9223372036854775807 (by
       rw [scfMax_eq, Go.wrap64_id (by omega) (by omega)]
-      have : ¬ (0 : Int) > 9223372036854775807 - (off : Int) := by omega
-      simp [this]
-    have hmin : scfMin (9223372036854775807 - (off : Int)) (remaining : Int) = .ok ((toRead (total pre) seg [] off remaining : Nat) : Int) := by
-      rw [scfMin_eq]
-      have : ¬ (9223372036854775807 - (off : Int) < (remaining : Int)) := by omega
-      simp [this, toRead]
-    have hlast : ((pre.length : Int) == Go.wrap64 (Go.len (mk all).readers - 1)) = true := by
-      rw [hlr, w _ (by omega) (by omega)]; simp
-    simp only [hmax, hmin, bind_ok, hrd]
-    iter_finish
+      have h1 : ¬ (0 : Int) > 9223372036854775807 - (off : Int) := by omega
+      simp only [h1, if_false, bind_ok, scfMin_eq]
+      have h2 : ¬ (9223372036854775807 - (off : Int) < (remaining : Int)) := by omega
+      simp [h2, toRead])]
+    exact hafter _ _ _ (readSeg_length_le _ _ _)
   | cons s2 r2 =>
     have c1 : ((pre.length : Int) < Go.wrap64 (Go.len (mk all).offsets - 1)) := by
       rw [hlo, w _ (by omega) (by omega)]; simp; omega
@@ -224,22 +299,14 @@ theorem iter_eq (all : List (List UInt8)) (htot : total all < 2 ^ 61) (hcnt : al
       have e : ((pre.length : Int) + 1).toNat = pre.length + 1 := by omega
       rw [e]; unfold mk; simp only; rw [← hall, offs_getD_succ]
     simp only [c1, decide_true, if_true, hi1, bind_ok]
-    have hmax : scfMax 0 (Go.wrap64 (((total pre + seg.length : Nat) : Int) - (off : Int)))
-        = .ok (((total pre + seg.length - off : Nat)) : Int) := by
+    rw [hread ((total pre + seg.length : Nat) : Int) (by
       rw [scfMax_eq, Go.wrap64_id (by omega) (by omega)]
       by_cases h : (0 : Int) > ((total pre + seg.length : Nat) : Int) - (off : Int)
-      · simp [h]; omega
-      · simp [h]; omega
-    have hmin : scfMin (((total pre + seg.length - off : Nat)) : Int) (remaining : Int)
-        = .ok ((toRead (total pre) seg (s2 :: r2) off remaining : Nat) : Int) := by
-      rw [scfMin_eq]
-      by_cases h : (((total pre + seg.length - off : Nat)) : Int) < (remaining : Int)
-      · simp [h, toRead]; omega
-      · simp [h, toRead]; omega
-    have hlast : ((pre.length : Int) == Go.wrap64 (Go.len (mk all).readers - 1)) = false := by
-      rw [hlr, w _ (by omega) (by omega)]; simp; omega
-    simp only [hmax, hmin, bind_ok, hrd]
-    iter_finish
+      · simp only [h, if_true, bind_ok, scfMin_eq]
+        by_cases h2 : (0 : Int) < (remaining : Int) <;> simp [h2, toRead] <;> omega
+      · simp only [h, if_false, bind_ok, scfMin_eq]
+        by_cases h2 : ((total pre + seg.length : Nat) : Int) - (off : Int) < (remaining : Int) <;> simp [h2, toRead] <;> omega)]
+    exact hafter _ _ _ (readSeg_length_le _ _ _)
 
 /-- the loop ended (normally or by `break`) in a state that shows the model's answer: the first `n` bytes of the buffer
     are the model's bytes, `totalN = n`, and "remaining > 0 && reachedEnd" is the model's end-of-file verdict -/
@@ -357,5 +424,54 @@ theorem loop_agrees (all : List (List UInt8)) (htot : total all < 2 ^ 61) (hcnt 
           have e2 : (((pre ++ [seg]).length : Nat) : Int) = ((pre.length + 1 : Nat) : Int) := by simp
           rw [e2] at this
           exact this)
+
+
+/-- **tie**: `MultiReaderAt.ReadAt(p, off)` as translated from the source, over in-memory segment readers with the offsets
+    `NewMultiReaderAt` computes, fills the front of `p` with exactly the bytes the model `Multi.readAt` returns, reports their
+    number, and answers `io.EOF` exactly when the model does — for every list of segments (empty ones included), every
+    non-negative offset and every non-empty buffer (sizes below 2^61; `fuel` = number of segments + 1: the loop ends). -/
+theorem gen_scfMultiReadAt_eq_model (segs : List (List UInt8)) (htot : total segs < 2 ^ 61) (hcnt : segs.length < 2 ^ 61)
+    (p : List UInt8) (off : Nat) (hp0 : 0 < p.length) (hoff : off + p.length < 2 ^ 61) :
+    ∃ p', scfMultiReadAt (segs.length + 1) (mk segs) p (off : Int)
+        = .ok (((Multi.readAt segs off p.length).1.length : Int), (if (Multi.readAt segs off p.length).2 then Go.Error.eof else Go.Error.nil), p') ∧
+      p'.length = p.length ∧ p'.take (Multi.readAt segs off p.length).1.length = (Multi.readAt segs off p.length).1 := by
+  have h := loop_agrees segs htot hcnt p.length (by omega) (segs.length + 1) segs [] (by simp) (segs.length + 1) off p false [] p.length
+    (by omega) rfl (by simp) (by simp) hp0 (by omega)
+  obtain ⟨off', p', re', rem', ri', hr, hlen, htake, heof, hsum⟩ := h
+  simp only [List.length_nil, Int.natCast_zero, total] at hr htake heof hsum
+  refine ⟨p', ?_, hlen, ?_⟩
+  · unfold scfMultiReadAt Multi.readAt
+    have hmo : (mk segs).offsets = offsOf 0 segs := rfl
+    simp only [hmo, Go.len, hr, bind_ok, pure_eq_ok]
+    rw [← heof]
+    cases re' <;> by_cases hz : 0 < rem' <;> simp [hz]
+  · unfold Multi.readAt; exact htake
+
+/-- with `Multi.readAt_spec`: the bytes are the requested range of the concatenation, `io.EOF` iff the range reaches past
+    the end — the statement of C16's first sentence, about the translated reader -/
+theorem gen_scfMultiReadAt_spec (segs : List (List UInt8)) (hne : segs ≠ []) (htot : total segs < 2 ^ 61) (hcnt : segs.length < 2 ^ 61)
+    (p : List UInt8) (off : Nat) (hp0 : 0 < p.length) (hoff : off + p.length < 2 ^ 61) :
+    ∃ n err p', scfMultiReadAt (segs.length + 1) (mk segs) p (off : Int) = .ok (n, err, p') ∧
+      p'.length = p.length ∧ n = ((Multi.want segs off p.length).length : Int) ∧
+      p'.take (Multi.want segs off p.length).length = Multi.want segs off p.length ∧
+      (err = Go.Error.eof ↔ (Multi.want segs off p.length).length < p.length) ∧ (err = Go.Error.eof ∨ err = Go.Error.nil) := by
+  obtain ⟨p', hr, hlen, htake⟩ := gen_scfMultiReadAt_eq_model segs htot hcnt p off hp0 hoff
+  obtain ⟨h1, h2⟩ := Multi.readAt_spec segs off p.length hne hp0
+  refine ⟨_, _, p', hr, hlen, by rw [h1], by rw [h1] at htake; exact htake, ?_, ?_⟩
+  · rw [← h2]; cases (Multi.readAt segs off p.length).2 <;> simp
+  · cases (Multi.readAt segs off p.length).2 <;> simp
+
+/-- non-vacuity: the hypotheses are satisfiable and the translated reader runs (through the theorem) -/
+example : ∃ p', scfMultiReadAt 3 (mk [[1, 2, 3], [4, 5]]) [0, 0, 0] ((2 : Nat) : Int) = .ok (3, Go.Error.nil, p') ∧ p'.take 3 = [3, 4, 5] := by
+  obtain ⟨p', h, _, ht⟩ := gen_scfMultiReadAt_eq_model [[1, 2, 3], [4, 5]] (by decide) (by decide) [0, 0, 0] 2 (by decide) (by decide)
+  have hm : Multi.readAt [[1, 2, 3], [4, 5]] 2 3 = ([3, 4, 5], false) := by decide
+  simp only [List.length_cons, List.length_nil, hm] at h ht
+  exact ⟨p', h, ht⟩
+
+example : ∃ p', scfMultiReadAt 3 (mk [[1, 2, 3], [4, 5]]) [0, 0, 0] ((4 : Nat) : Int) = .ok (1, Go.Error.eof, p') := by
+  obtain ⟨p', h, _, _⟩ := gen_scfMultiReadAt_eq_model [[1, 2, 3], [4, 5]] (by decide) (by decide) [0, 0, 0] 4 (by decide) (by decide)
+  have hm : Multi.readAt [[1, 2, 3], [4, 5]] 4 3 = ([5], true) := by decide
+  simp only [List.length_cons, List.length_nil, hm] at h
+  exact ⟨p', h⟩
 
 end GoTies.C16
